@@ -374,7 +374,7 @@ class RPC:
                         errlist = []
                         errors = self._reply.errors
                         if len(errors) > 1:
-                            raise RPCError(to_ele(self._reply._raw), errs=errors)
+                            raise RPCError(to_ele(self._reply._raw, huge_tree=self._huge_tree), errs=errors)
                         else:
                             raise self._reply.error
                 if self._device_handler.transform_reply():
